@@ -1,12 +1,81 @@
-"""C16 ledger cases for Value trees: the operation sequences of C12 (assignments, keyed/indexed
-writes, merges, removals, copy, move, pointer-to-value) run with the allocation ledger; every real
-trace is decided by the Lean `run` (validation: there is no per-operation trace model of Value)."""
+"""C16 ledger cases for Value trees.
+
+    ledger_cases(ctx)                          -> (harness_src, lines)
+    compare_with_model(ctx, drv, lines, outs)  -> indexes whose real trace disagrees with the model's
+
+Two kinds of lines go to harness/value_harness.cpp (built with -DVERIF_LEDGER):
+* `valseq …` — the operation sequences of C12 / C18 with all their dumps (getters, Stringify, GroupBy):
+  every real trace is judged by the Lean `Ledger.run` (validation; the dumps' own allocations are in it);
+* `valled …` — the same operation language without dumps, roots destroyed before the line is emitted: the
+  trace is the operations' own.  These are compared with the allocation-trace model
+  lean/Qentem/Model/ValueLedger.lean (driver op `valled`): the number of allocations and of releases per
+  line must be equal, the model's own trace must be balanced, and the model's final forest with the block
+  ids erased must be the value model's forest.  (Counts, not event order: inside one operation the real
+  order of releases may differ from the model's, e.g. copy-construct-then-move-assign; the real order is
+  judged by `Ledger.run` on the real trace itself.)
+"""
+import itertools
+from vlib import core
 from checks import _value
+
+MODULES = ["Qentem.Props.C16Value"]
+THEOREMS = [
+    "Qentem.Props.C16Value.lifetime_balanced",
+    "Qentem.Props.C16Value.prefix_owned",
+    "Qentem.ValueLedger.Acc_runL",
+    "Qentem.ValueLedger.Acc_stepL",
+    "Qentem.ValueLedger.Acc_stepBody",
+    "Qentem.ValueLedger.Acc_onTargetL",
+    "Qentem.ValueLedger.owned_takeSourceL",
+    "Qentem.ValueLedger.Good_updPathL",
+    "Qentem.ValueLedger.Good_updKeyL",
+    "Qentem.ValueLedger.Good_updIdxL",
+    "Qentem.ValueLedger.Acc_copyL",
+    "Qentem.ValueLedger.Acc_compressL",
+    "Qentem.ValueLedger.Acc_objMergeL_move",
+    "Qentem.ValueLedger.Acc_objMergeL_copy",
+    "Qentem.ValueLedger.Good_mergeL_move",
+    "Qentem.ValueLedger.Good_mergeL_copy",
+    "Qentem.ValueLedger.Acc_arrConcatL",
+    "Qentem.ValueLedger.Acc_destroyL",
+]
+
+SMALL_OPS = ["set 0/ka97 n1", "set 0/kc98 sa120", "set 0/kd97.97 sb121", "set 0/kc97 z", "rem 0 97 b", "rmi 0 0 a", "cmp 0",
+             "set 0/ia1 N", "app 0 sb120", "ins 0 98 sa49", "set 0/kd98/ka97 n2", "cpy 1 0 a", "cpy 1/ka97 0 b", "mrg 0 1 b",
+             "mrg 0 1 a", "apv 0 1 b", "apv 0 1 a", "mov 0 1 a", "apo 0 1 a", "apa 0 1 b", "obj 0 1 b", "arr 0 1 a", "inm 0 98 1",
+             "typ 0 3", "set 1/ia2 se97", "app 1 T", "rst 0", "ptr 0 -", "adp 0 1",
+             # sources that are empty but own storage, for every consuming operation
+             "rsv 1 2 3", "rsv 1 3 2", "clr 1", "clr 0", "rsv 0 2 1", "set 1/ka97 sa120", "inm 0 97 1/ka97", "mov 0/ka98 1 b"]
+
+
+# directed: every consuming (and, for contrast, every copying) two-operand operation with a source that is empty
+# but owns storage (Size() == 0, Capacity() != 0: reserved, or filled and then cleared; the empty string built from
+# text owns its terminator block), onto every kind of target
+EMPTY_SOURCES = [["rsv 1 2 3"], ["rsv 1 3 2"], ["set 1/ka97 sa120", "set 1/ka98 n1", "clr 1"], ["app 1 sa120", "app 1 n1", "clr 1"],
+                 ["set 1 sa-"], ["rsv 1/ka97 2 4"], ["rsv 1/ia0 3 3"]]
+TARGETS = [[], ["set 0/ka97 n1"], ["app 0 sa121"], ["set 0 n5"], ["rsv 0 2 2"], ["rsv 0 3 1"], ["set 0/ka97 n1", "set 0/ka98 n2"]]
+TWO_OPERAND = ["mov 0 1 a", "mov 0 1 b", "mov 0/ka99 1 a", "apv 0 1 a", "apv 0/ka99 1 a", "mrg 0 1 a", "inm 0 99 1", "inm 0 97 1",
+               "cpy 0 1 a", "cpy 0 1 b", "apv 0 1 b", "mrg 0 1 b", "apo 0 1 a", "apa 0 1 b", "obj 0 1 a", "arr 0 1 b",
+               "mov 0 1/ka97 a", "apv 0 1/ka97 a", "mrg 0 1/ia0 a", "inm 0 98 1/ia0"]
+
+
+def directed_cases():
+    out = []
+    for src in EMPTY_SOURCES:
+        for tgt in TARGETS:
+            for op in TWO_OPERAND:
+                out.append(tgt + src + [op])
+                out.append(tgt + src + [op, "cmp 0", "clr 0"])
+    return out
 
 
 def ledger_cases(ctx):
     rng = ctx.rng
     lines = []
+    for ops in directed_cases():
+        lines.append(_value.line_of(ops, cmd="valled"))
+    for ops in directed_cases()[::4]:
+        lines.append(_value.line_of(ops))
     for _ in range(1500 if not ctx.thorough else 20000):
         lines.append(_value.line_of(_value.rand_sequence(rng, rng.randrange(1, 14))))
     # GroupBy (scratch stream and key pointer handling), including elements without the key
@@ -16,4 +85,33 @@ def ledger_cases(ctx):
     for c in cases[:: (1 if ctx.thorough else 3)]:
         ops = [o.replace("GRP", "grp") if o.startswith("GRP") else o for o in c.ops]
         lines.append(_value.line_of(ops))
+    # operation-only traces for the comparison with the trace model
+    depth = 3 if ctx.thorough else 2
+    for n in range(1, depth + 1):
+        for seq in itertools.product(SMALL_OPS, repeat=n):
+            lines.append(_value.line_of(list(seq), cmd="valled"))
+    for _ in range(4000 if not ctx.thorough else 60000):
+        g = _value.PtrGraph()
+        ops = [_value.rand_op(rng, g, allow_group=False) for _ in range(rng.choice([1, 3, 5, 8, 12, 16]))]
+        lines.append(_value.line_of(ops, cmd="valled"))
     return "value_harness.cpp", lines
+
+
+def compare_with_model(ctx, drv, lines, outs):
+    idx = [i for i, l in enumerate(lines) if l.startswith("valled ")]
+    sub = [lines[i] for i in idx]
+    model, _ = core.run_lines_parallel(drv, sub, jobs=12, env=None)
+    real = []
+    for i in idx:
+        o = outs[i]
+        if " ##L " not in o:
+            real.append(o)
+            continue
+        tr = o.split(" ##L ")[1].rsplit(" live=", 1)[0]
+        ev = [] if tr == "-" else tr.split(",")
+        na = sum(1 for e in ev if e.startswith("a"))
+        nf = sum(1 for e in ev if e.startswith("f"))
+        real.append("%d/%d bal=1 doc=1" % (na, nf))
+    bad = ctx.correspond("ledger:value trees (allocations and releases per line; model trace balanced; erased forest = value model)",
+                         sub, real, model, nontrivial=lambda l: l.count(";") >= 1, show=lambda s: s[:300])
+    return [idx[j] for j in bad]
